@@ -900,6 +900,11 @@ class _ExecutorManagerThread(threading.Thread):
             except ProcessLookupError:  # pragma: no cover
                 pass
 
+        # Nobody reads the call queue anymore: close its reader end so that a
+        # feeder thread blocked sending a large task gets a BrokenPipeError
+        # instead of waiting forever (see CPython's gh-94777).
+        self.call_queue._reader.close()
+
     def shutdown_workers(self):
         # shutdown all workers in self.processes
 
